@@ -444,7 +444,9 @@ def c14_scenarios(r, tier):
         pairs = []
         for j in range(npairs):
             base = 10 * (j + 1)
-            kind = r.choice(["double", "double-head", "double-one-root", "surround", "surrounded", "proposal"])
+            # (every kind at least once per cluster, then at random)
+            kinds_ = ["proposal", "double", "double-head", "surround", "surrounded", "double-one-root"]
+            kind = kinds_[j] if j < len(kinds_) else r.choice(kinds_)
             if kind == "double":
                 d1, d2 = ("iatt", att9(base, base + 5, 0)), ("iatt", att9(base, base + 5, 1))
             elif kind in ("double-head", "double-one-root"):
@@ -482,12 +484,17 @@ def c14_scenarios(r, tier):
                         events.append((3, i, (d, att9(base + 8, base + 9, 2))))
             events = r.shuffle(events)
             # and once in this very order on one instance: first duty, stale request, conflicting duty
-            if r.chance(0.7):
+            if kind == "proposal" or r.chance(0.7):
                 ix = r.choice(ids)
                 events += [(1, ix, d1), (0, ix, stale), (2, ix, d2)] if r.chance(0.5) else [(2, ix, d2), (0, ix, stale), (1, ix, d1)]
+            if kind != "proposal":
+                # and once through the plain single-attestation endpoint, back to back on one instance
+                ix = r.choice(ids)
+                events += [(1, ix, d1, "iatt"), (2, ix, d2, "iatt")] if r.chance(0.5) else [(2, ix, d2, "iatt"), (1, ix, d1, "iatt")]
             i1, i2 = [], []
             w0 = len(lines)
-            for which, i, d in events:
+            for ev_ in events:
+                which, i, d = ev_[0], ev_[1], ev_[2]
                 if which == 0:
                     lines.append("%s %d %s %s" % (d[0], i, hx(acct), d[1]))
                     continue
@@ -497,6 +504,8 @@ def c14_scenarios(r, tier):
                 (i1 if which == 1 else i2).append(len(lines))
                 # attestations reach an instance through either endpoint (single, or a batch of one)
                 opn = "iatts" if d[0] == "iatt" and r.chance(0.5) else d[0]
+                if len(ev_) > 3:
+                    opn = ev_[3]
                 if opn == "iatts" and r.chance(0.5):
                     # the duty shares its batch with another account's attestation at much lower epochs
                     low[i] += 1
